@@ -132,6 +132,11 @@ class MathSimplification:
             for blit in newbody:
                 allvars.update(set(collect_ast(blit, "Variable")))
             needed.update((global_vars_inside_body(stm.body) - global_vars_inside_body(newbody)) & allvars)
+            # also inside the elements of the translated aggregates
+            for blit in gb.equalities:
+                for agg in collect_ast(blit, "BodyAggregate"):
+                    for elem in agg.elements:
+                        needed.update(global_vars_inside_body(stm.body) & set(collect_ast(elem, "Variable")))
             try:
                 new_conditions = gb.simplify_equalities(needed, unbound)
                 for cond in new_conditions:
